@@ -135,7 +135,7 @@ func c03Enumerate(r *eng.Run, f func(c c03Case)) {
 func init() {
 	checks["C03"] = eng.Check{
 		Hist: true,
-		Rule: "every RV64IMA program of <=3 (thorough 4) instructions over a 36-word alphabet built to collide (three writers of x1, negative immediates, mul/div, sd/sw/sh/sb to overlapping offsets of one base, loads inside one store / across two stores / across a store and never-written memory / inside the image / across the image start, addw (32-bit register read) followed by a 64-bit reader, amoadd.w, lr.w, sc.w, sc.w/amoswap.w using ONE register as address and data, sd/sw/amoswap.w storing x0, add/ld/sd/jalr/amoadd.w whose destination is their own source or base register, beq forward, jal backward, jalr to a register, pseudo-jump jal +4, csrrw) followed by 4 nops, through the real pipeline (elf block store -> parser -> deps.NewCode -> emulator with Overlay(Bytes(image), Sparse)); run for <=8 steps from 4 initial states (small values; full 64-bit values with an indirect jump to a mid-instruction address; pre-loaded registers/memory with a jump outside the code; data area above 2^32) supplied by the state provider. After every step pc, every register the emulator knows, every written or supplied memory byte and the step report (register/memory reads and writes with values, as sets) are compared with the reference interpreter; Step must fail exactly when pc is not an instruction start. states = program x initial state; transitions = steps executed. Non-trivial = run of >=3 steps.",
+		Rule: "every RV64IMA program of <=3 (thorough 4) instructions over a 36-word alphabet built to collide (three writers of x1, negative immediates, mul/div, sd/sw/sh/sb to overlapping offsets of one base, loads inside one store / across two stores / across a store and never-written memory / inside the image / across the image start, addw (32-bit register read) followed by a 64-bit reader, amoadd.w, lr.w, sc.w, sc.w/amoswap.w using ONE register as address and data, sd/sw/amoswap.w storing x0, add/ld/sd/jalr/amoadd.w whose destination is their own source or base register, beq forward, jal backward, jalr to a register, pseudo-jump jal +4, csrrw) followed by 4 nops, through the real pipeline (elf block store -> parser -> deps.NewCode -> emulator with Overlay(Bytes(image), Sparse)); run for <=8 steps from 4 initial states (small values; full 64-bit values with an indirect jump to a mid-instruction address; pre-loaded registers/memory with a jump outside the code; data area above 2^32) supplied by the state provider. After every step pc, every register the emulator knows, every written or supplied memory byte and the step report (register/memory reads and writes with values, as sets) are compared with the reference interpreter; Step must fail exactly when pc is not an instruction start. Plus 8 three-instruction programs whose middle instruction stores to / loads from the last bytes of the address space (ending exactly at 2^64, or wrapping around it). states = program x initial state; transitions = steps executed. Non-trivial = run of >=3 steps.",
 		Assumptions: []string{
 			"programs storing into their own image are skipped (property excludes self-modification)",
 			"the step report is compared as sets; a register read at several widths may be reported at any of them",
@@ -162,6 +162,23 @@ func init() {
 					r.Outcome(fmt.Sprint("steps=", steps))
 				}
 			})
+			// the last bytes of the address space: accesses ending exactly at 2^64 and accesses wrapping around it
+			// (a RISC-V machine performs both; address arithmetic is modulo 2^64)
+			for _, w := range []uint32{prog.Sd(1, 0, -8), prog.Sw(1, 0, -4), prog.Sb(1, 0, -1), prog.Ld(7, 0, -8), prog.Lbu(7, 0, -1), prog.Lw(7, 0, -4),
+				prog.Sd(1, 0, -4), prog.Lw(7, 0, -2)} {
+				for _, in := range c03Inits[:2] {
+					c := c03Case{Words: []uint32{prog.Addi(1, 0, 5), w, prog.Addi(2, 1, 1)}, Init: in, Steps: 4, Entry: c03Base}
+					f, steps, _ := c03Run(c, nil)
+					r.Eval(1)
+					r.State(1)
+					r.Trace(1)
+					r.Trans(steps)
+					if f != nil {
+						r.Report(f)
+						r.Outcome(f.Sig)
+					}
+				}
+			}
 			r.Sample(c03Case{Words: []uint32{prog.Sw(2, 5, 4), prog.Lw(8, 5, 2), prog.Beq(1, 2, 8)}, Text: []string{"sw x2,4(x5)", "lw x8,2(x5)", "beq x1,x2,+8"}, Init: c03Inits[0], Steps: 8, Entry: c03Base})
 		},
 		Replay: func(r *eng.Run, raw json.RawMessage) *eng.Fail {
